@@ -217,7 +217,7 @@ def _lexeme_witnesses(run: Run, sess: rx.Session, N: int, progress: bool) -> Non
 
 
 MUTANTS = [
-    rx.Mutant("NULL rule with an empty alternative", rx.edit_replace("(null)", "(null|)"), ["lexer-step:rule-extent:NULL", "lexer-step:progress"]),
+    rx.Mutant("NULL rule may match nothing", rx.edit_optional("NULL"), ["lexer-step:rule-extent:NULL", "lexer-step:progress"]),
     rx.Mutant("WS rule may match nothing", rx.edit_replace(r"(?P<WS>\s+)", r"(?P<WS>\s*)"), ["lexer-step:rule-extent:WS", "lexer-step:progress"]),
 ]
 
